@@ -129,6 +129,15 @@ def c14(tier):
 EARLIER = ['810161', '8102e282', '81018f', '0101e2', '8201ff']
 
 
+# text messages on a connection with permessage-deflate negotiated (abstract zlib of C06): compressed or not, in 1-2 fragments with every
+# fragment boundary, optional Ping between fragments: the text is judged AFTER inflation, whatever the deflate bytes look like
+COMPRESSED_TEXT = Spec('compressed-text', 'checks.deflate', 'run_deflate_as',
+                       dict(s_spellings=['absent'], c_spellings=['absent'], incoming=1, sends=0, max_frags=2, sym_negotiate=False, xval_stride=61, **{'as': 'C05'}),
+                       what='one incoming text/binary message on a connection with permessage-deflate negotiated (abstract zlib, see C06), compressed or '
+                            'uncompressed or damaged, 1-2 fragments with EVERY fragment boundary and an optional Ping between them: delivered iff the INFLATED '
+                            'payload is valid UTF-8; the raw deflate bytes of continuation frames are not text', chunk=60)
+
+
 def c05(tier):
     from checks import utf8
     tags = ['C05']
@@ -137,7 +146,8 @@ def c05(tier):
                  recv_spec('frag-text-L3', tags + ['C01'], family=dict(opcode=1, L=3, max_frags=3), cuts='bytewise'),
                  recv_spec('frag-text-L2-ping1', tags + ['C01', 'C04', 'C14'], family=dict(opcode=1, L=2, max_frags=3, ctrl_len=1), cuts='bytewise'),
                  recv_spec('recv-close-N6', tags + ['C01', 'C04'], N=6, first_opcodes=[8], no_rsv=True),
-                 recv_spec('text-after-earlier-connection', tags + ['C01'], family=dict(opcode=1, L=2, max_frags=2), cuts='bytewise', earlier=EARLIER)]
+                 recv_spec('text-after-earlier-connection', tags + ['C01'], family=dict(opcode=1, L=2, max_frags=2), cuts='bytewise', earlier=EARLIER),
+                 COMPRESSED_TEXT]
     else:
         specs = [recv_spec('recv-text-N8-bytewise', tags, N=8, first_opcodes=[1], no_rsv=True, cuts='bytewise'),
                  recv_spec('frag-text-L4', tags + ['C01'], family=dict(opcode=1, L=4, max_frags=4), cuts='bytewise'),
@@ -145,6 +155,7 @@ def c05(tier):
                  recv_spec('frag-text-L3-pong1', tags + ['C01', 'C04'], family=dict(opcode=1, L=3, max_frags=3, ctrl_len=1, ctrl=10)),
                  recv_spec('frag-text-L3-tail2', tags + ['C01'], family=dict(opcode=1, L=3, max_frags=3, tail_sym=2), cuts='bytewise'),
                  recv_spec('text-after-earlier-connection', tags + ['C01'], family=dict(opcode=1, L=3, max_frags=3), cuts='bytewise', earlier=EARLIER),
+                 COMPRESSED_TEXT,
                  recv_spec('recv-text-N9-nonfin-bytewise', tags, N=9, first_opcodes=[1], first_nonfin=True, no_rsv=True, cuts='bytewise'),
                  recv_spec('recv-text-N6-allcuts', tags, N=6, first_opcodes=[1], no_rsv=True, cuts='sym'),
                  recv_spec('recv-close-N8', tags + ['C01', 'C04'], N=8, first_opcodes=[8], no_rsv=True)]
@@ -172,6 +183,7 @@ def c02(tier):
                  seg_spec('hs-joined-N3', N=3, mode='hs-joined-bytewise'),
                  seg_spec('one-cut-anywhere-N3', N=3, mode='one-cut-anywhere', hs_window=8),
                  seg_spec('bytewise-all-N2', N=2, mode='bytewise-all'),
+                 seg_spec('head-allcuts-N2', N=2, mode='head-allcuts', head=5),
                  seg_spec('burst-after-hs', N=2, mode='after-hs', big_prefix=16400),
                  seg_spec('frag-text-L3-allcuts', family=dict(opcode=1, L=3, max_frags=2), mode='frames-allcuts')]
     else:
@@ -181,6 +193,7 @@ def c02(tier):
                  seg_spec('hs-joined-N5', N=5, mode='hs-joined-bytewise'),
                  seg_spec('one-cut-anywhere-N4', N=4, mode='one-cut-anywhere', hs_window=200),
                  seg_spec('bytewise-all-N3', N=3, mode='bytewise-all'),
+                 seg_spec('head-allcuts-N3', N=3, mode='head-allcuts', head=8),
                  seg_spec('burst-after-hs', N=3, mode='after-hs', big_prefix=16400),
                  seg_spec('burst-after-hs-64k', N=2, mode='after-hs', big_prefix=65400),
                  seg_spec('frag-text-L4-allcuts', family=dict(opcode=1, L=4, max_frags=3), mode='frames-allcuts')]
@@ -333,6 +346,10 @@ def c07(tier):
                   'timeout must end the iteration (virtual clock starting at an epoch-sized value)',
                   server=dict(kind='grammar', K=2, alphabet=['pong', 'text']), end='silence', silent_waits=10 ** 6,
                   connect=dict(poll=1.0, ping_rate=1.0, ping_timeout=3.0), max_waits=30),
+        life_spec('unicode-options', tags,
+                  'WebSocket(url, agent=..., protocols=[...]) with one symbolic code point each (every plane, surrogates and controls excluded): '
+                  'whatever the text, the attempt yields a well-formed event sequence (no exception escapes while the request is built)',
+                  server=dict(kind='grammar', K=1, alphabet=['text']), sym_agent=True),
         life_spec('grammar-K%d-cut' % (2 if q else 3), tags,
                   'server grammar frames, transport cut after a symbolic number of bytes of the whole stream (incl. inside the handshake)',
                   server=dict(kind='grammar', K=2 if q else 3, alphabet=['text', 'ping', 'close', 'frag']), cut_anywhere=True, end='sym',
@@ -415,6 +432,10 @@ def c13(tier):
                                server=dict(kind='grammar', K=2, alphabet=['text', 'ping', 'close']), connect=dict(poll=0.0), abandon_mechanism=mech,
                                record_selector=True, app=dict(actions=['abandon'], max_actions=1),
                                fault=dict(ops=['shutdown'], kinds=['oserror'], max=1)))
+    specs.append(sched_spec('abandon-while-sending', tags, [['loop'], ['send_text']], 2,
+                            'thread 1 runs the real event loop and abandons it (generator.close()) at the first Poll after Ready while thread 2 is anywhere '
+                            'inside send_text - also in the middle of its sendall, holding the write lock (deterministic scheduler, schedule = solver variables): '
+                            'the socket must end up closed', loop_abandon_at='poll', hs_separate=True, xval_stride=11))
     return run_property('C13', tier, specs, 'model_checking', 'abandoning the loop releases the socket', ENV_ASSUMPTIONS + [
         'CPython reference counting finalises a dropped generator immediately (break/raise rely on it); other interpreters are outside'],
         LIFE_FUNCS)
@@ -448,6 +469,9 @@ def c10(tier):
                       '  permessage-deflate  ', 'permessage-deflate; client_no_context_takeover ; server_max_window_bits="10"',
                       'permessage-deflate ;server_no_context_takeover', 'permessage-deflate\t; client_no_context_takeover'],
           proto_values=['chat', '  chat', 'chat\t ']),
+        S('reply-upgrade-specials', 'run_reply', 'plain reply, status 101, 9-byte Upgrade value over token characters PLUS the other visible ASCII characters '
+          '({ } % ! # $ & \' * + . ^ _ ` | ~): whatever the value, an incorrect reply ends in Rejected (never in an escaped exception or a bare Disconnected)',
+          templates=['plain'], sym_status=False, sym_case=False, upgrade_class='token+'),
         S('fresh-key', 'run_fresh_key', 'one WebSocket object connect()ed 3 times; os.urandom(16) symbolic per call; the key of request i must decode to the draw made for attempt i; a reply recorded from attempt 1 is optionally replayed later', xval_stride=2),
         S('oversize', 'run_oversize', 'header block of 16384-3..16384+3 bytes, terminated or not, one read or cut at a symbolic position around the bound'),
     ]
@@ -468,6 +492,9 @@ def c19(tier):
     specs = [
         S('status', '9 proxy/URL configurations x proxy answer = "HTTP/1.1 " + 3 SYMBOLIC status bytes (any values) + terminated tail '
           '(with/without headers); one read', tails=['ok', 'ok-headers']),
+        S('status-line-separators', 'proxy answer "HTTP/1.1" <b1> "200" <b2> "Connection established": the two separator bytes are SYMBOLIC (any '
+          'value but CR/LF): with SP SP the verdict follows the status; with any non-blank byte (letters, digits, 0x1C-0x1F, 0x80+...) there is no status 200 and '
+          'nothing may be written; HT/VT/FF are a don\'t-care region', sym_seps=True, sym_status=False, configs=[0], tails=['ok']),
         S('tails', '9 configurations x answer tail in {terminated, with headers, unterminated+EOF, empty, >16KiB unterminated, >16KiB terminated, '
           'garbage} (solver variables), status 200', sym_status=False),
         S('segmented', 'answers cut at a symbolic position (two recv(1024) reads), status 200', cuts='symcut', sym_status=False,
@@ -507,6 +534,14 @@ def c17(tier):
         S('reuse-compressed-then-plain', 'connection 1 negotiated permessage-deflate; connection 2\'s server does not: the reused object must behave like a fresh one '
           '(no RSV1, no stale compressor)', N1=1, N2=2, endings=['compressed-then-plain']),
     ]
+    PW = ('a WebSocket that reaches its server through a proxy is connected twice: the earlier attempt\'s outcome is a solver variable {tunnel + session, '
+          'proxy answer cut by a socket error, cut by EOF, 407}; the second attempt must behave exactly as the C19 oracle demands of a first attempt: ')
+    specs.append(Spec('proxied-reconnect-status', 'checks.proxy', 'run_proxy_as',
+                      dict(prelude=True, same_object=True, configs=[0, 3], tails=['ok', 'unterminated-eof'], xval_stride=11, **{'as': 'C17'}),
+                      what=PW + '3 symbolic status bytes, terminated / unterminated answer, one read'))
+    specs.append(Spec('proxied-reconnect-segmented', 'checks.proxy', 'run_proxy_as',
+                      dict(prelude=True, same_object=True, configs=[0], tails=['ok', 'ok-headers'], cuts='symcut', sym_status=False, xval_stride=11, **{'as': 'C17'}),
+                      what=PW + 'answer 200 cut at a symbolic position into two reads'))
     return run_property('C17', tier, specs, 'model_checking', 'each connect() starts from a clean slate', ENV_ASSUMPTIONS + [
         'reconnect chains longer than 2 follow by induction only if connection 2 leaves no more state than connection 1 could (stated, not proved)'],
         LIFE_FUNCS + ['lomond.websocket.WebSocket.reset/State.__init__', 'lomond.session.WebsocketSession.__init__'])
@@ -547,6 +582,8 @@ def c15(tier):
                        K=K + 1, ping_rate=r, ping_timeout='none', close_timeout='none', actions=['silent', 'text'], app_close=False))
     specs.append(S('ping-timeout', W + 'ping_timeout symbolic, ping_rate=1, server actions {silent, Pong}: Unresponsive iff more than t since Ready / last Pong, '
                    'at the first housekeeping instant', K=K + 1, ping_rate=1, close_timeout='none', actions=['silent', 'pong'], app_close=False))
+    specs.append(S('ping-timeout-r0', W + 'ping_timeout symbolic with ping_rate=0 (no automatic Pings): the timeout still runs from Ready / the last Pong',
+                   K=K + 1, ping_rate=0, close_timeout='none', actions=['silent', 'pong'], app_close=False))
     specs.append(S('close-timeout', W + 'close_timeout symbolic, application close() at a solver-chosen event, server actions {silent, Text, Close}: forced '
                    'non-graceful Disconnected in [c, c+p] after the Close was sent, never after the handshake completed',
                    K=K + 1, ping_rate=0, ping_timeout='none', actions=['silent', 'text', 'close']))
@@ -581,7 +618,7 @@ def c18(tier):
         recv_spec('deliver-same-cycle-frag', ['C18'], family=dict(opcode=1, L=2, max_frags=3, ctrl_len=1), cuts='bytewise'),
         recv_spec('deliver-same-cycle-allcuts', ['C18'], N=4 if q else 5, cuts='sym'),
     ]
-    burst = dict(long_frame=True, long_lens=[16000, 16384, 20000] if q else [16000, 16384, 20000, 65536, 70000], long_split=False)
+    burst = dict(long_frame=True, long_lens=[16000, 16384, 20000, 70000] if q else [16000, 16384, 20000, 65536, 70000, 140000], long_split=False)
     specs += [recv_spec('burst-behind-reply', ['C18'], reads='joined', **burst),
               recv_spec('burst-tls-records', ['C18'], reads='tls16k', **burst)]
     specs[-2].what = ('the upgrade reply and a burst of 16-70 KB behind it arrive in ONE read (plain transport, as much as the 64 KiB buffer takes): ' + specs[-2].what)
